@@ -192,6 +192,11 @@ class KVStream(Stream):
                 exp = list_page(cur.keys(), P + p, after, limit)
                 if got != exp:
                     sig = self.classify_list(kind, txn is not None, P + p, after, exp, got)
+                    if kind == "raft" and txn is not None and (P + p) in cur.keys() and \
+                            got == list_page([k for k in cur.keys() if k != P + p], P + p, after, limit):
+                        # F41 under pagination: the listing is that of the store without the key that equals the listed
+                        # prefix (its empty child name is missing, so the page is shifted by one)
+                        sig = SIG_EMPTY
                     fail(i, "listing differs from the slice of the sorted children: prefix=%r after=%r limit=%d expected %r got %r"
                          % (P + p, after, limit, exp, got), sig)
             elif name == "begin":
